@@ -8,7 +8,7 @@ Local Open Scope R_scope.
 (** ** what a returned value means *)
 Definition means (n : nat) (st : est) (k : okind) (v : val) : Prop :=
   match k, v with
-  | KPoint d, VVec u => length u = n /\ forall i, vecR u i = (evalP (rho_of n st) d : nat -> R) i
+  | KPoint d, VVec u => (forall i, vecR u i = (evalP (rho_of n st) d : nat -> R) i) /\ (d <> [] -> length u = n)
   | KExpr d, VNum q => Q2R q = evalE (rho_of n st) (phi_of st) d
   | KCons e _, VNum q => Q2R q = evalE (rho_of n st) (phi_of st) (dict_of_eh st e)
   | KLmi m, VMat qss =>
@@ -45,11 +45,11 @@ Proof.
     constructor; [apply pure_row_hom; assumption|apply IH; reflexivity].
 Qed.
 
-Lemma pure_obj_hom n st k v : solved n st -> pure_obj n st k = Ok v -> means n st k v.
+Lemma pure_obj_hom n m0 st k v : solved n st -> pure_obj m0 st k = Ok v -> means n st k v.
 Proof.
   intros Hs. destruct k as [d|d|e s|m]; cbn [pure_obj].
-  - destruct (point_compute n st d) as [u|] eqn:H; [|discriminate]. intros [= <-].
-    apply point_compute_hom; assumption.
+  - destruct (point_compute m0 st d) as [u|] eqn:H; [|discriminate]. intros [= <-].
+    destruct (point_compute_hom n st Hs m0 d u H) as (H1 & H2 & _). split; assumption.
   - destruct (expr_compute st d) as [q|] eqn:H; [|discriminate]. intros [= <-].
     apply expr_compute_hom; assumption.
   - destruct (pure_eh st e) as [q|] eqn:H; [|discriminate]. intros [= <-].
@@ -58,24 +58,18 @@ Proof.
     apply pure_rows_hom; assumption.
 Qed.
 
-(** [pure_obj] does not look at [m] except for derived points *)
-Lemma pure_obj_m m m' st k : (forall d, k <> KPoint d) -> pure_obj m st k = pure_obj m' st k.
-Proof. destruct k; intro H; try reflexivity. exfalso. apply (H d). reflexivity. Qed.
-
 (** *** C02_eval_hom.  Every object whose caches are empty (or, more generally, coherent with the
     current leaf values): whatever [eval] returns IS the linear / bilinear combination of the values
-    of its operands -- for derived points under the guard that no leaf point was created since the
-    solve ([length (lpv st) = n]; without it: F-C02a below). *)
+    of its operands.  No guard on the class counter any more (repair e997f00): leaf points created
+    since the solve do not matter, except for the number of coordinates of the EMPTY combination
+    (see [empty_point_length], F-C02b). *)
 Theorem eval_hom n st r o st' v :
   solved n st -> get_obj st r = Some o -> good (length (lpv st)) st r ->
-  (forall d, okind_of o = KPoint d -> length (lpv st) = n) ->
   eval_obj st r = (st', Ok v) -> means n st (okind_of o) v.
 Proof.
-  intros Hs Ho G Hn H.
-  pose proof (eval_obj_value (length (lpv st)) st r st' (Ok v) o H Ho G (fun _ _ _ => eq_refl)) as Hv.
-  apply pure_obj_hom; [exact Hs|]. rewrite Hv.
-  destruct (okind_of o) as [d| | |] eqn:Hk; try (apply pure_obj_m; intros d' Hd; discriminate).
-  rewrite (Hn d eq_refl). reflexivity.
+  intros Hs Ho G H.
+  pose proof (eval_obj_value (length (lpv st)) st r st' (Ok v) o H Ho G (fun _ _ => eq_refl)) as Hv.
+  eapply pure_obj_hom; [exact Hs|]. symmetry. exact Hv.
 Qed.
 
 (** totality: when every leaf the object mentions has a value, [eval] returns one *)
@@ -112,23 +106,22 @@ Proof.
   destruct (pure_row_total n st Hs row) as [qs ->]; [intros; apply H, in_or_app; left; assumption|].
   destruct IH as [qss ->]; [intros; apply H, in_or_app; right; assumption|]. eauto.
 Qed.
-Lemma pure_obj_total n st k : solved n st -> assigned st k -> exists v, pure_obj n st k = Ok v.
+Lemma pure_obj_total n m0 st k : solved n st -> assigned st k -> exists v, pure_obj m0 st k = Ok v.
 Proof.
   intros Hs. destruct k as [d|d|e s|m]; cbn [assigned pure_obj]; intro H.
-  - destruct (point_sum_total n st Hs d (repeat 0%Q n)) as [v Hv]; [apply repeat_length|exact H|].
-    unfold point_compute. rewrite Hv. eauto.
+  - destruct (point_compute_total n st Hs m0 d H) as [v Hv]. rewrite Hv. eauto.
   - destruct (expr_sum_total n st Hs d 0%Q H) as [q Hq]. unfold expr_compute. rewrite Hq. eauto.
   - destruct (pure_eh_total n st e Hs H) as [q ->]. eauto.
   - destruct (pure_rows_total n st Hs m H) as [q ->]. eauto.
 Qed.
 
 Theorem eval_total n st r o :
-  solved n st -> get_obj st r = Some o -> good (length (lpv st)) st r -> length (lpv st) = n ->
+  solved n st -> get_obj st r = Some o -> good (length (lpv st)) st r ->
   assigned st (okind_of o) -> exists v, snd (eval_obj st r) = Ok v.
 Proof.
-  intros Hs Ho G Hn Ha. destruct (eval_obj st r) as [st' x] eqn:H.
-  pose proof (eval_obj_value (length (lpv st)) st r st' x o H Ho G (fun _ _ _ => eq_refl)) as Hv.
-  cbn [snd]. rewrite Hv, Hn. apply pure_obj_total; assumption.
+  intros Hs Ho G Ha. destruct (eval_obj st r) as [st' x] eqn:H.
+  pose proof (eval_obj_value (length (lpv st)) st r st' x o H Ho G (fun _ _ => eq_refl)) as Hv.
+  cbn [snd]. rewrite Hv. eapply pure_obj_total; eassumption.
 Qed.
 
 (** *** C02_gram_reading *)
@@ -282,21 +275,53 @@ Section ObjMin.
   Qed.
 End ObjMin.
 
-(** *** F-C02a: a derived point that was not evaluated before a new leaf point was created *)
-Definition c02a_prog : list op :=
-  [NewLeafP; NewLeafP; NewLeafE; MkPoint [(0%nat, 1%Q); (1%nat, (-1)%Q)]; AddMetric (ELeaf 0);
-   Solve (Some (mkSol [[1%Q; 0%Q]; [0%Q; 1%Q]] [1%Q; 1%Q] [VNum 1%Q]));
-   NewLeafP; Eval 0].
-
-Theorem eval_hom_refuted :
-  exists st r o, st = es (final (removelast c02a_prog)) /\ get_obj st r = Some o /\
-    solved 2 st /\ clean st r /\ assigned st (okind_of o) /\
-    snd (eval_obj st r) = Raise EShape.
+(** *** The empty combination (F-C02b, narrow remainder of F-C02a): [x - x], a block of a partition
+    that cancels, ...: its null vector is [np.zeros(Point.counter)] with the CURRENT counter. *)
+Theorem empty_point_value st r o st' x :
+  get_obj st r = Some o -> okind_of o = KPoint [] -> ocache o = None ->
+  eval_obj st r = (st', x) -> x = Ok (VVec (repeat 0%Q (length (lpv st)))).
 Proof.
-  eexists. exists 0%nat. eexists. split; [reflexivity|]. split; [vm_compute; reflexivity|].
-  split; [|split; [|split]].
+  unfold eval_obj. intros -> -> ->. cbn. intros [= _ <-]. reflexivity.
+Qed.
+
+(** after a solve with 2 leaf points and one more leaf point created since, the not-yet-evaluated
+    empty combination has 3 coordinates while every other point of the instance has 2 *)
+Definition c02b_prog : list op :=
+  [NewLeafP; NewLeafP; NewLeafE; MkPoint []; MkPoint [(0%nat, 1%Q); (1%nat, (-1)%Q)]; AddMetric (ELeaf 0);
+   Solve (Some (mkSol [[1%Q; 0%Q]; [0%Q; 1%Q]] [1%Q; 1%Q] [VNum 1%Q]));
+   NewLeafP].
+
+Theorem empty_point_length_refuted :
+  let st := es (final c02b_prog) in
+  solved 2 st /\ clean st 0 /\ clean st 1
+  /\ snd (eval_obj st 1) = Ok (VVec [1%Q; (-1)%Q])                 (* x0 - x1: fine since e997f00 *)
+  /\ snd (eval_obj st 0) = Ok (VVec [0%Q; 0%Q; 0%Q]).               (* the empty combination: 3 coordinates *)
+Proof.
+  cbv zeta. split; [|split; [|split; [|split]]].
   - intros i v H. destruct i as [|[|[|[|i]]]]; vm_compute in H; try discriminate; injection H as <-; reflexivity.
   - intros o. vm_compute. intros [= <-]. split; [reflexivity|]. intros r' [].
-  - vm_compute. intros i [<-|[<-|[]]]; eexists; reflexivity.
+  - intros o. vm_compute. intros [= <-]. split; [reflexivity|]. intros r' [].
+  - vm_compute. reflexivity.
   - vm_compute. reflexivity.
 Qed.
+
+(** *** Regression about the OLD formula (before e997f00), kept only to document what was repaired:
+    [value = np.zeros(Point.counter); value += weight * point.eval()] raised a broadcasting error on
+    the same state on which the repaired evaluation returns the combination. *)
+Definition old_np_iadd (acc v : list Q) : res (list Q) :=
+  if Nat.eqb (length v) (length acc) then Ok (zipadd acc v)
+  else if Nat.eqb (length v) 1 then Ok (map (fun a => (a + hd 0 v)%Q) acc)
+  else Raise EShape.
+Fixpoint old_point_sum (st : est) (acc : list Q) (d : pdict) : res (list Q) :=
+  match d with
+  | [] => Ok acc
+  | (k, w) :: d' => match leafP st k with
+                    | Raise e => Raise e
+                    | Ok v => match old_np_iadd acc (vscale w v) with
+                              | Raise e => Raise e
+                              | Ok acc' => old_point_sum st acc' d'
+                              end
+                    end
+  end.
+Definition old_point_compute (st : est) (d : pdict) : res (list Q) :=
+  old_point_sum st (repeat 0%Q (length (lpv st))) d.
